@@ -20,8 +20,14 @@ class InjectedOSError(OSError):
     """Marker subclass so the harness can tell its own faults from organic errors (never shown to emsarray as different: it *is* an OSError)."""
 
 
+class InjectedPermissionError(InjectedOSError, PermissionError):
+    """EACCES as Python raises it: a PermissionError (code that says `except PermissionError` must see it)."""
+
+
 def make_oserror(kind, what):
-    return InjectedOSError(ERRNO.get(kind, errno.EIO), f'injected {kind} at {what}')
+    code = ERRNO.get(kind, errno.EIO)
+    cls = InjectedPermissionError if code == errno.EACCES else InjectedOSError
+    return cls(code, f'injected {kind} at {what}')
 
 
 class FaultController:
